@@ -1449,7 +1449,7 @@ class NameCheckVisitor(node_visitor.ReplacingNodeVisitor):
             ret = VOID
         if self.annotate:
             node.inferred_value = ret
-        if self.error_for_implicit_any:
+        if self.error_for_implicit_any and self._is_checking():
             for val in ret.walk_values():
                 if isinstance(val, AnyValue) and val.source is not AnySource.explicit:
                     self._show_error_if_checking(
@@ -1457,6 +1457,9 @@ class NameCheckVisitor(node_visitor.ReplacingNodeVisitor):
                         f"Inferred value contains Any: {ret}",
                         ErrorCode.implicit_any,
                     )
+                    # one report per node: the message is the same for every Any in
+                    # the value, and formatting a deeply nested value is slow
+                    break
         return ret
 
     def generic_visit(self, node: ast.AST) -> None:
